@@ -47,7 +47,7 @@ def replay_case(ctx: Ctx, case: dict) -> int:
     try:
         t = sh.models[d.name]
         top = t.inner_type if isinstance(t, pydsdl.DelimitedType) else t
-        ti = [m.short_name for m in sh.main_models].index(d.name)
+        ti = [x.name for x in sh.mains].index(d.name)
         tag = case.get("config") or case.get("a") or "c-any"
         cfgs = [tag] + ([case["b"]] if "b" in case else [])
         rc = 0
